@@ -532,7 +532,7 @@ def _join(a, b, note, site):
 # ---------------------------------------------------------------------------------
 # driver: phase order from the mesh driver methods, then the writer's requirements
 # ---------------------------------------------------------------------------------
-def phase_order(prog):
+def phase_order(prog, with_loops=False):
     """names of MeshRegion methods in the order Mesh.geometry (and the helper it calls)
     invokes them on every region; extracted from `for region in ...: region.m()` loops."""
     mod = prog.module(MESH)
@@ -540,6 +540,8 @@ def phase_order(prog):
     if g is None:
         raise AnalysisError("Mesh.geometry not found")
     order = []
+    loops = []
+    counter = [0]
 
     def visit(fn):
         for s in fn.node.body:
@@ -550,11 +552,14 @@ def phase_order(prog):
     def _collect(s, fn):
         if isinstance(s, ast.For):
             tgt = s.target.id if isinstance(s.target, ast.Name) else None
+            counter[0] += 1
+            this_loop = counter[0]
             for b in s.body:
                 if isinstance(b, ast.Expr) and isinstance(b.value, ast.Call):
                     d = dotted(b.value.func)
                     if d and tgt and d.startswith(tgt + "."):
                         order.append(d.split(".")[1])
+                        loops.append(this_loop)
                     elif d and d.startswith("self."):
                         sub = mod.funcs.get("Mesh." + d.split(".")[1])
                         if sub is not None:
@@ -574,6 +579,8 @@ def phase_order(prog):
                     visit(sub)
 
     visit(g)
+    if with_loops:
+        return order, loops
     return order
 
 
